@@ -208,26 +208,37 @@ CHECKS.update({
         level="model_checking",
         technique="TLA+ specs de/Strategy.tla (ten mutation strategies with explicit random draws), solver/DE.tla (generation loop, "
                   "strict greedy selection, in-place DE vs frozen-generation DE2), solver/NMExact.tla (concrete Nelder-Mead on "
-                  "dyadic rationals), solver/NM.tla (+Trace_NM) and solver/Powell.tla (+Trace_Powell) model-checked by TLC; every "
-                  "TLC-emitted strategy case and DE / Nelder-Mead behaviour is replayed on the real strategy functions and solver "
-                  "classes (spec->code, bit for bit), and recorded float runs of Nelder-Mead and Powell are validated per "
-                  "iteration by TLC against the trace specs (code->spec)",
+                  "dyadic rationals), solver/NM.tla with Trace_NM.tla and solver/Powell.tla with Trace_Powell.tla, model-checked by "
+                  "TLC; every TLC-emitted strategy case and DE / Nelder-Mead behaviour is replayed on the real strategy functions "
+                  "and solver classes (spec->code, bit for bit), and recorded float runs of the real NelderMeadSimplexSolver / "
+                  "fmin and PowellDirectionalSolver / fmin_powell (the line search wrapped as the given one) are validated per "
+                  "solver step by TLC against the trace specs (code->spec)",
         text="DE: every case of Strategy.tla (NP 4..6, nDim 1..3, all ten strategies, every distinct donor tuple, start index, "
              "crossover draw pattern, F in {1/2,1}; 113k cases quick) is run through the real strategy with a scripted random "
              "module on both solver classes: trial vector, draw order, pool and number of draws must equal the specification's; "
-             "25k behaviours of DE.tla (cost tables with ties, trial rules per Step) are replayed on DifferentialEvolutionSolver "
-             "and DifferentialEvolutionSolver2 comparing population, energies and best after every Step (a member is replaced only "
-             "by a strictly better trial; 1200 scripts on which DE and DE2 must differ).  Nelder-Mead: every behaviour of "
-             "NMExact.tla (start point x abs/quadratic/plateau cost x radius x standard/adaptive coefficients x tolerances, "
-             "dims 1,2,4) is replayed Step by Step, through Solve() and through fmin and must agree bit for bit in simplex, "
-             "energies, iteration and evaluation counts and stop verdict.  Where built (see evidence extra), float runs of "
-             "Nelder-Mead / Powell are explained iteration by iteration by the decision tree of NM.tla and the outer loop of "
-             "Powell.tla (extrapolation test, direction replacement, bookkeeping), the Brent line search being the given one.",
+             "25k behaviours of DE.tla (cost tables with ties, trial rules per Step) are replayed on both DE classes comparing "
+             "population, energies and best after every Step (a member is replaced only by a strictly better trial).  "
+             "Nelder-Mead spec->code: every behaviour of NMExact.tla (start x abs/quadratic/plateau cost x radius x standard/"
+             "adaptive coefficients x tolerances, dims 1,2,4) replayed Step by Step, through Solve() and fmin, bit for bit in "
+             "simplex, energies, counts and stop verdict.  Nelder-Mead code->spec: on float problems (smooth, non-smooth, 1e6:1 "
+             "ill-conditioned, staircases with exact ties, inf walls, non-convex; dims 1-8) every objective call of every "
+             "iteration is labelled R/E/OC/IC/S_j by bit-for-bit comparison with the documented point recomputed from the "
+             "pre-state with the published coefficients; TLC accepts an iteration only as exactly one path of NM.tla's decision "
+             "tree given the energy ranks, with the replaced vertex, the sort, the counters and the stop rule (quick 9.8k, "
+             "thorough 140k iterations; all five branches).  Powell code->spec: each Step is an extrapolation part (point 2x-x1, "
+             "fx>fx2, t<0 recomputed from the documented formula, extra line search iff both, direc[bigind]:=direc[-1]; "
+             "direc[-1]:=direc1) and a direction loop (N chained line searches, delta/bigind = first largest decrease, x1/fx, "
+             "energy history, counters, stop test); post-state must equal Powell.tla's (quick 766, thorough 9.3k loops).  "
+             "Secondary: fmin / fmin_powell equal the vendored reference and scipy.optimize.fmin in (xopt, fopt, iter, "
+             "funcalls) exactly on the same catalogue.",
         note="trusted: TLC, the transcription of the published algorithms (Storn-Price crossover rules, Nelder-Mead coefficients "
-             "1, 2, 1/2, 1/2 and adaptive variant, Powell's direction-set loop) into the specs, exact IEEE arithmetic on the "
-             "dyadic lattices used; the floating-point interior of the Brent line search is outside the technique (treated as "
-             "the given line search, as the statement words it); two known findings (Bin strategies that use the exponential "
-             "loop; exponential run that may be empty) are listed in known_findings.jsonl and keyed per strategy",
+             "and adaptive variant, Powell's direction-set loop) into the specs, exact IEEE arithmetic on the dyadic lattices, "
+             "ranks/ids preserving every comparison; labels and float formulas (t, stop tests, 2x-x1) are recomputed by the "
+             "harness from recorded floats, never taken from the solver; numpy.argsort and Brent's line search are given "
+             "primitives (Brent's floating-point interior is outside the technique, as the statement words it); known findings "
+             "(Bin strategies using the exponential loop; exponential run that may be empty; no stop test after Powell's first "
+             "direction loop - named deviation DevFirstStop keeps the rest of such runs validated) are listed in "
+             "known_findings.jsonl",
         design_ref="DESIGN.md section 4/C08"),
     "C09": dict(
         level="model_checking",
